@@ -543,6 +543,15 @@ def run_cli_many(jobs, release=False, timeout=60):
     def one(job):
         argv, data = job[0], job[1]
         cpus = job[2] if len(job) > 2 else None      # optional: the set of CPUs the process may run on
+        extra_env = job[3] if len(job) > 3 else None  # optional: environment variables added to (or, value None, removed from) ENV
+        env = ENV
+        if extra_env:
+            env = dict(ENV)
+            for k_, v_ in extra_env.items():
+                if v_ is None:
+                    env.pop(k_, None)
+                else:
+                    env[k_] = v_
         try:
             def _confine():
                 try:
@@ -550,7 +559,7 @@ def run_cli_many(jobs, release=False, timeout=60):
                 except OSError:
                     pass            # not permitted here: the run is then an ordinary one
             pre = _confine if cpus else None
-            p = subprocess.run([binary] + list(argv), input=data, capture_output=True, timeout=timeout, env=ENV, preexec_fn=pre)
+            p = subprocess.run([binary] + list(argv), input=data, capture_output=True, timeout=timeout, env=env, preexec_fn=pre)
             return (p.returncode, p.stdout, p.stderr)
         except subprocess.TimeoutExpired:
             return (-999, b"", b"timeout")
@@ -702,6 +711,23 @@ def invocation_variants(rep, cls, jobs, rng, n=12):
             variants.append(("--output onto the input file itself, path first", [sub, io2] + rev + ["--output", io2], b"", io2))
         for name, av, din, outfile in variants:
             allj.append((av, din)); meta.append((k, name, outfile))
+    # the ENVIRONMENT is no part of the command either: logging, colour, locale and terminal variables set to values other
+    # programs react to must change neither stdout nor the exit status nor what is said on stderr
+    envs = [{"RUST_LOG": "error"}, {"RUST_LOG": "off"}, {"RUST_LOG": "trace"}, {"RUST_LOG": "sfs=warn"}, {"NO_COLOR": "1", "TERM": "dumb"}, {"CLICOLOR_FORCE": "1", "TERM": "xterm-256color"},
+            {"LANG": "de_DE.UTF-8", "LC_ALL": "de_DE.UTF-8", "LC_NUMERIC": "de_DE.UTF-8"}, {"RUST_LOG_STYLE": "always"}, {"COLUMNS": "20"}, {"HOME": "/nonexistent", "TMPDIR": "/nonexistent"}]
+    env_jobs, env_meta = [], []
+    for k, ((argv, data), r) in enumerate(zip(jobs, ref)):
+        for e_ in rng.sample(envs, 4):
+            env_jobs.append((list(argv), data, None, e_)); env_meta.append((k, e_))
+    for (k, e_), (rc, so, se) in zip(env_meta, run_cli_many(env_jobs)):
+        rrc, rso, rse = ref[k]
+        rep.count("invocation-variants", "environment %s: %s" % (e_, " ".join(jobs[k][0])[:160]), True)
+        plain = lambda b_: re.sub(rb"\x1b\[[0-9;]*m", b"", b_)          # colour is presentation, not content
+        if (rc, so, plain(se)) != (rrc, rso, plain(rse)):
+            rep.fail(kind="property-oracle", cls=cls, case="environment %s: %s" % (e_, " ".join(jobs[k][0])[:300]), argv=["sfs"] + list(jobs[k][0]), env=e_,
+                     stdin_hex=jobs[k][1].hex()[:200000], observed={"rc": rc, "stdout": so[:300].decode(errors="replace"), "stderr": se.decode(errors="replace")[-300:]},
+                     expected={"rc": rrc, "stdout": rso[:300].decode(errors="replace"), "stderr": rse.decode(errors="replace")[-300:]},
+                     detail="the same command with these environment variables set gives a different result (stdout, exit status or diagnostics)")
     res = run_cli_many(allj)
     # the input as a path that is not a regular file: /dev/stdin, and a named pipe
     for k, ((argv, data), r) in enumerate(zip(jobs, ref)):
